@@ -750,6 +750,31 @@ def r9_motion_params(repo: Repo, rep):
                             continue  # forwarded unchanged to the helper that replicates them
                         else:
                             rep.undecided(R, fi.site(e.node), fi.fq, "replication layout of the motion parameters recognisable", f"{dump(c.func)}({dump(a)[:80]})")
+            # the other half of the pairing: where the helper copies the inner points itself (inner domain independent of the parameters), every parameter row gets ONE WHOLE copy (tile)
+            moved = set()
+            for n in ast.walk(fi.node):
+                if isinstance(n, ast.Call) and dump(n.func) in fns and n.args:
+                    moved |= {x.id for x in ast.walk(n.args[0]) if isinstance(x, ast.Name)}
+            for n in ast.walk(fi.node):
+                if not (isinstance(n, ast.Assign) and len(n.targets) == 1 and isinstance(n.targets[0], ast.Name) and n.targets[0].id not in moved):
+                    continue
+                kind, base, cnt = _layout(n.value)
+                if kind not in ("tile", "interleave") or base is None:
+                    continue
+                v = n.value
+                if kind == "interleave":
+                    dim = next((k.value for k in v.keywords if k.arg == "dim"), None)
+                    pos = list(v.args)
+                    if isinstance(v.func, ast.Attribute) and attr_chain(v.func.value) == "torch":
+                        pos = pos[1:]
+                    if dim is None and len(pos) >= 2:
+                        dim = pos[1]
+                    if dim is not None and not (isinstance(dim, ast.Constant) and dim.value == 0):
+                        continue  # a replication of columns, not of rows
+                if kind == "tile" and not (len(v.args) >= 2 and all(isinstance(x, ast.Constant) and x.value == 1 for x in v.args[1:])):
+                    continue
+                rep.check(R, kind == "tile", fi.site(n), fi.fq, "points copied for the parameter rows as whole blocks (tile): block k is the complete inner sample, moved with parameter row k",
+                          dump(n)[:100], f"{n.targets[0].id}: {kind}")
 
 
 def r10_source_data(repo: Repo, rep):
